@@ -5,6 +5,7 @@ import (
 	stdjson "encoding/json"
 	"fmt"
 	jlib "github.com/jsightapi/jsight-schema-go-library"
+	"regexp"
 	"strings"
 	"time"
 
@@ -250,7 +251,44 @@ func corpus(c *ev.Ctx) []item {
 	for _, s := range []string{"/a/", "/a\\/b/", "/[a-z]+/", "/^a$/", "/ /", "/\\//"} {
 		add(item{"regex", s, false, false})
 	}
+	// every body of <= 4 symbols over {a, \, /, .} that forms ONE /P/ token
+	// (the only unescaped slashes are the delimiters) with a pattern Go accepts
+	var rec func(b string)
+	rec = func(b string) {
+		if b != "" && regexTokenOK(b) {
+			add(item{"regex", "/" + b + "/", false, false})
+		}
+		if len(b) == 4 {
+			return
+		}
+		for _, ch := range []string{"a", "\\", "/", "."} {
+			rec(b + ch)
+		}
+	}
+	rec("")
 	return out
+}
+
+// regexTokenOK: "/"+body+"/" is one complete regex token - every slash inside
+// the body is escaped, the body does not end in an escaping backslash - and
+// the body is a pattern Go's regexp accepts.
+func regexTokenOK(body string) bool {
+	esc := false
+	for i := 0; i < len(body); i++ {
+		switch {
+		case esc:
+			esc = false
+		case body[i] == '\\':
+			esc = true
+		case body[i] == '/':
+			return false
+		}
+	}
+	if esc {
+		return false
+	}
+	_, err := regexp.Compile(body)
+	return err == nil
 }
 
 func run(c *ev.Ctx) {
@@ -267,7 +305,11 @@ func run(c *ev.Ctx) {
 		}
 		// the base text must be accepted by its role (else it is not an S)
 		if !accepted(it) {
-			c.Inc("not_accepted_skipped")
+			// every text of the corpus is valid by construction (and is accepted on
+			// the tree the corpus was written against): S itself is the prefix of
+			// length len(S), which Check has to accept
+			c.Inc("not_accepted")
+			c.Violate(fmt.Sprintf("s-rejected;%s;%q", it.role, it.s), fmt.Sprintf("%s text %q is valid by construction but its own Check rejects it (so the prefix Len points at cannot be accepted either)", it.role, it.s), caseT{Role: it.role, S: it.s, Trunc: -1})
 			continue
 		}
 		c.Inc("texts_" + it.role)
@@ -334,7 +376,8 @@ func accepted(it item) bool {
 	case "enum":
 		return lib.Guard(func() error { return enum.New("e", it.s).Check() }).OK
 	case "regex":
-		return lib.Guard(func() error { _, err := regex.New("r", it.s).Pattern(); return err }).OK
+		// decided by the reference, not by the library under test
+		return len(it.s) >= 3 && regexTokenOK(it.s[1:len(it.s)-1])
 	}
 	return false
 }
